@@ -123,60 +123,18 @@ Theorem C14_tie_kmeans_guard_atoms :
 Proof. exact (@glue_kmeans_guard_atoms). Qed.
 Print Assumptions C14_tie_kmeans_guard_atoms.
 
+(* implicit *)
 Theorem C14_tie_kmeans_dataflow :
-  p_kmeans.p_kmeans =
-       ["kmeans.init:sample_fn(samples, num_clusters)"; "kmeans.loop:range(num_iters)";
-        "kmeans.body:if use_cosine_sim:     dists = samples @ rearrange(means, 'h n d -> h d n') else:     dists = -cdist(samples, means)";
-        "kmeans.body:buckets = torch.argmax(dists, dim=-1)";
-        "kmeans.body:bins = batched_bincount(buckets, minlength=num_clusters)";
-        "kmeans.body:all_reduce_fn(bins)"; "kmeans.body:zero_mask = bins == 0";
-        "kmeans.body:bins_min_clamped = bins.masked_fill(zero_mask, 1)";
-        "kmeans.body:new_means = buckets.new_zeros(num_codebooks, num_clusters, dim, dtype=dtype)";
-        "kmeans.body:new_means.scatter_add_(1, repeat(buckets, 'h n -> h n d', d=dim), samples)";
-        "kmeans.body:new_means = new_means / rearrange(bins_min_clamped, '... -> ... 1')";
-        "kmeans.body:all_reduce_fn(new_means)";
-        "kmeans.body:if use_cosine_sim:     new_means = l2norm(new_means)";
-        "kmeans.body:means = torch.where(rearrange(zero_mask, '... -> ... 1'), means, new_means)";
-        "kmeans.return:(means, bins)"; "bincount:batch, dtype, device = (x.shape[0], x.dtype, x.device)";
-        "bincount:target = torch.zeros(batch, minlength, dtype=dtype, device=device)";
-        "bincount:values = torch.ones_like(x)"; "bincount:target.scatter_add_(-1, x, values)";
-        "bincount:return target"; "EuclideanCodebook.init:if self.initted:     return";
-        "EuclideanCodebook.init:if exists(mask):     c = data.shape[0]     data = rearrange(data[mask], '(c n) d -> c n d', c=c)";
-        "EuclideanCodebook.init:embed, cluster_size = kmeans(data, self.codebook_size, self.kmeans_iters, sample_fn=self.sample_fn, all_reduce_fn=self.kmeans_all_reduce_fn)";
-        "EuclideanCodebook.init:embed_sum = embed * rearrange(cluster_size, '... -> ... 1')";
-        "EuclideanCodebook.init:self.embed.data.copy_(embed)";
-        "EuclideanCodebook.init:self.embed_avg.data.copy_(embed_sum)";
-        "EuclideanCodebook.init:self.cluster_size.data.copy_(cluster_size)";
-        "EuclideanCodebook.init:self.initted.data.copy_(torch.Tensor([True]))";
-        "EuclideanCodebook.initted_buffer:self.register_buffer('initted', torch.Tensor([not kmeans_init]))";
-        "EuclideanCodebook.call:self.init_embed_(flatten, mask=mask)";
-        "CosineSimCodebook.init:if self.initted:     return";
-        "CosineSimCodebook.init:if exists(mask):     c = data.shape[0]     data = rearrange(data[mask], '(c n) d -> c n d', c=c)";
-        "CosineSimCodebook.init:embed, cluster_size = kmeans(data, self.codebook_size, self.kmeans_iters, use_cosine_sim=True, sample_fn=self.sample_fn, all_reduce_fn=self.kmeans_all_reduce_fn)";
-        "CosineSimCodebook.init:embed_sum = embed * rearrange(cluster_size, '... -> ... 1')";
-        "CosineSimCodebook.init:self.embed.data.copy_(embed)";
-        "CosineSimCodebook.init:self.embed_avg.data.copy_(embed_sum)";
-        "CosineSimCodebook.init:self.cluster_size.data.copy_(cluster_size)";
-        "CosineSimCodebook.init:self.initted.data.copy_(torch.Tensor([True]))";
-        "CosineSimCodebook.initted_buffer:self.register_buffer('initted', torch.Tensor([not kmeans_init]))";
-        "CosineSimCodebook.call:self.init_embed_(flatten, mask=mask)"].
+  p_kmeans.p_kmeans = pinned_p_kmeans.
 Proof. exact (@pin_p_kmeans). Qed.
 Print Assumptions C14_tie_kmeans_dataflow.
 
 Theorem C14_initted_is_persistent_euclid :
-  inv_euclid.inv_euclid =
-       [("batch_mean", Buffer, true); ("batch_variance", Buffer, true); ("cluster_size", Buffer, true);
-        ("codebook_mean", Buffer, true); ("codebook_mean_needs_init", Buffer, true);
-        ("codebook_variance", Buffer, true); ("codebook_variance_needs_init", Buffer, true);
-        ("embed", Buffer, true); ("embed", Param, true); ("embed_avg", Buffer, true);
-        ("initted", Buffer, true)].
+  inv_euclid.inv_euclid = pinned_inv_euclid.
 Proof. exact (@pin_inv_euclid). Qed.
 Print Assumptions C14_initted_is_persistent_euclid.
 
 Theorem C14_initted_is_persistent_cosine :
-  inv_cosine.inv_cosine =
-       [("cluster_size", Buffer, true); ("embed", Buffer, true); ("embed", Param, true);
-        ("embed_avg", Buffer, true); ("initted", Buffer, true)].
+  inv_cosine.inv_cosine = pinned_inv_cosine.
 Proof. exact (@pin_inv_cosine). Qed.
 Print Assumptions C14_initted_is_persistent_cosine.
-
